@@ -10,6 +10,10 @@ D10 accepted context writes/deletes are carried out by every forwarding layer (v
 D11 the generated rename:/delete:/template: processors act whenever the consumed key was resolved.
 The D1 first-match chain is decided from the truth table of the guards (sa/props/_chains.py), not from
 the textual order of the `if` statements.
+Rules that look inside a function body analyse its normal form (sa/normal.py: new private helpers inlined)
+and speak about values, not spellings: a local is followed through the definitions that reach the point of
+use (`_val`/`_vals`/`_is_param`/`_rooted_in_param`), a named condition counts as the condition it names
+(`_edges`/`_only_through`), call arguments are bound by parameter name (`_call_args`).
 """
 from __future__ import annotations
 
@@ -38,6 +42,9 @@ from ..report import Report
 from ._chains import PARAMRES, _resolved, _single_defs, exit_values, extract_chain
 from ..pat import find, find1, match, name_of
 
+from ..engine import mutation_sites, parent
+from ..normal import nfunc
+
 NODES = "semantiva/pipeline/nodes/nodes.py"
 PAYP = "semantiva/pipeline/payload_processors.py"
 OBS = "semantiva/context_processors/context_observer.py"
@@ -47,6 +54,327 @@ SLICE = "semantiva/data_processors/data_slicer_factory.py"
 RESOLVERS = "semantiva/registry/builtin_resolvers.py"
 IOF = "semantiva/data_processors/io_operation_factory.py"
 ORCH = "semantiva/execution/orchestrator/orchestrator.py"
+
+
+# ---------------------------------------------------------------------- value tracing
+# The rules below speak about *values* ("the mapping handed to the processor", "the key parameter",
+# "the payload's data"), not about the spelling of the statement that produces them: a local name is
+# followed through the definitions that reach the point of use (CFG reaching definitions, tuple
+# unpacking included), a named condition is read as the condition it names.
+KEEP = ("_get_processor_parameters", "_fetch_parameter_value", "_process_single_item_with_context", "_process")
+
+
+def _nf(repo: Repo, rel: str, qn: str) -> ast.AST:
+    """Normal form of a function (new private helpers inlined, if/else of one statement merged);
+    the helpers the rules know by name stay calls."""
+    return nfunc(repo, rel, qn, keep=KEEP)
+
+
+def _node_of(g: CFG, n: ast.AST) -> Optional[int]:
+    """CFG node at which *n* (statement or expression) is evaluated."""
+    cur: Optional[ast.AST] = n
+    while cur is not None and cur is not g.func:
+        ids = g.nodes_for(cur)
+        if ids:
+            return ids[0]
+        cur = parent(cur)
+    return None
+
+
+def _fn_params(fn: ast.AST) -> Set[str]:
+    a = fn.args
+    out = {x.arg for x in list(a.posonlyargs) + list(a.args) + list(a.kwonlyargs)}
+    if a.vararg:
+        out.add(a.vararg.arg)
+    if a.kwarg:
+        out.add(a.kwarg.arg)
+    return out
+
+
+def _defines(n, name: str) -> bool:
+    a = n.ast
+    if a is None:
+        return False
+    if n.kind == "stmt" and isinstance(a, (ast.Assign, ast.AnnAssign, ast.AugAssign)):
+        tgts = a.targets if isinstance(a, ast.Assign) else [a.target]
+        return any(isinstance(x, ast.Name) and x.id == name and isinstance(x.ctx, ast.Store) for t in tgts for x in ast.walk(t))
+    if n.kind == "for" and isinstance(a, ast.For):
+        return any(isinstance(x, ast.Name) and x.id == name for x in ast.walk(a.target))
+    if n.kind == "with" and isinstance(a, ast.With):
+        return any(it.optional_vars is not None and any(isinstance(x, ast.Name) and x.id == name for x in ast.walk(it.optional_vars)) for it in a.items)
+    if n.kind == "except" and isinstance(a, ast.ExceptHandler):
+        return a.name == name
+    return False
+
+
+def _bound_values(g: CFG, name: str, use: int) -> Optional[List[Tuple[ast.AST, int]]]:
+    """(expression, CFG node where it was evaluated) for every binding of local *name* that can
+    reach node *use*; None when one of them is not a plain assignment (loop target, `with`/`except`
+    name, augmented assignment, unpacking of a non-tuple).  A parameter whose entry value can
+    still reach *use* contributes itself at the entry node.  [] = never bound here (global/builtin)."""
+    out: List[Tuple[ast.AST, int]] = []
+    defs = reaching_defs(g, name, use)
+    for d in defs:
+        v = _assigned_component(d.ast, name) if d.kind == "stmt" else None
+        if v is None:
+            return None
+        out.append((v, d.id))
+    if name in _fn_params(g.func) and use != g.entry:
+        if not defs:
+            return []
+        all_defs = {n.id for n in g.nodes if _defines(n, name)}
+        if use in g.reach([g.entry], blocked=all_defs - {use}):
+            out.append((ast.Name(id=name, ctx=ast.Load()), g.entry))
+    return out
+
+
+def _val(g: CFG, e: ast.AST, use: int) -> Tuple[ast.AST, int]:
+    """Follow a local name to the expression it stands for (while exactly one plain binding reaches)."""
+    for _ in range(12):
+        if isinstance(e, ast.NamedExpr):
+            e = e.value
+            continue
+        if not isinstance(e, ast.Name):
+            break
+        b = _bound_values(g, e.id, use)
+        if not b or len(b) != 1 or (isinstance(b[0][0], ast.Name) and b[0][0].id == e.id and b[0][1] == g.entry):
+            break
+        e, use = b[0]
+    return e, use
+
+
+def _vals(g: CFG, e: ast.AST, use: int, depth: int = 0) -> Optional[List[Tuple[ast.AST, int]]]:
+    """Every expression *e* can stand for at *use* (all reaching bindings, both arms of a
+    conditional expression); None when a binding cannot be followed."""
+    if depth > 12:
+        return None
+    if isinstance(e, ast.NamedExpr):
+        return _vals(g, e.value, use, depth + 1)
+    if isinstance(e, ast.IfExp):
+        a, b = _vals(g, e.body, use, depth + 1), _vals(g, e.orelse, use, depth + 1)
+        return None if a is None or b is None else a + b
+    if isinstance(e, ast.Name):
+        bs = _bound_values(g, e.id, use)
+        if bs is None:
+            return None
+        if not bs:
+            return [(e, use)]
+        out: List[Tuple[ast.AST, int]] = []
+        for v, d in bs:
+            if isinstance(v, ast.Name) and v.id == e.id and d == g.entry:
+                out.append((v, d))
+                continue
+            r = _vals(g, v, d, depth + 1)
+            if r is None:
+                return None
+            out += r
+        return out
+    return [(e, use)]
+
+
+def _is_param(g: CFG, e: Optional[ast.AST], use: int, p: str) -> bool:
+    """*e* necessarily denotes the value parameter *p* had on entry."""
+    if e is None:
+        return False
+    vs = _vals(g, e, use)
+    return bool(vs) and all(isinstance(v, ast.Name) and v.id == p and (u == g.entry or not reaching_defs(g, p, u)) for v, u in vs)
+
+
+def _rooted_in_param(g: CFG, e: ast.AST, use: int, p: str, depth: int = 0) -> bool:
+    """*e* is an attribute/item path into the object parameter *p* was bound to on entry
+    (`p`, `p.maps[0]`, a local alias of either)."""
+    if depth > 10:
+        return False
+    while isinstance(e, (ast.Attribute, ast.Subscript)):
+        e = e.value
+    if not isinstance(e, ast.Name):
+        return False
+    bs = _bound_values(g, e.id, use)
+    if bs is None:
+        return False
+    if not bs:
+        return e.id == p
+    return all((isinstance(v, ast.Name) and v.id == p and d == g.entry) if (isinstance(v, ast.Name) and v.id == e.id and d == g.entry) else _rooted_in_param(g, v, d, p, depth + 1) for v, d in bs)
+
+
+def _call_args(c: ast.Call, names: Tuple[str, ...]) -> Optional[Dict[str, ast.AST]]:
+    """Arguments of *c* by parameter name (positional ones in the order *names*); None when the call
+    uses * / ** spreading or an unknown keyword."""
+    if any(isinstance(a, ast.Starred) for a in c.args) or len(c.args) > len(names):
+        return None
+    out: Dict[str, ast.AST] = dict(zip(names, c.args))
+    for k in c.keywords:
+        if k.arg is None or k.arg not in names or k.arg in out:
+            return None
+        out[k.arg] = k.value
+    return out
+
+
+def _same_bindings(g: CFG, v: ast.AST, at: int, use: int) -> bool:
+    """The locals read by *v* have the same reaching bindings at *at* and at *use* (a condition
+    named at *at* still says the same thing when tested at *use*)."""
+    for nm in {x.id for x in ast.walk(v) if isinstance(x, ast.Name)}:
+        if {d.id for d in reaching_defs(g, nm, at)} - {at} != {d.id for d in reaching_defs(g, nm, use)} - {at}:
+            return False
+    return True
+
+
+def _edges(g: CFG, test: ast.AST, use: int, atom, depth: int = 0) -> Set[str]:
+    """Like cfg.edges_guaranteeing, with `atom(expr, node)` and named conditions expanded."""
+    pol = atom(test, use)
+    if pol is True:
+        return {"T"}
+    if pol is False:
+        return {"F"}
+    if isinstance(test, ast.NamedExpr):
+        return _edges(g, test.value, use, atom, depth)
+    if isinstance(test, ast.Name) and depth < 6:
+        b = _bound_values(g, test.id, use)
+        if b and len(b) == 1 and b[0][1] != g.entry and _same_bindings(g, b[0][0], b[0][1], use):
+            return _edges(g, b[0][0], b[0][1], atom, depth + 1)
+        return set()
+    if isinstance(test, ast.UnaryOp) and isinstance(test.op, ast.Not):
+        return {"F" if x == "T" else "T" for x in _edges(g, test.operand, use, atom, depth)}
+    if isinstance(test, ast.BoolOp):
+        out: Set[str] = set()
+        subs = [_edges(g, v, use, atom, depth) for v in test.values]
+        for sub in subs:
+            if isinstance(test.op, ast.And) and "T" in sub:
+                out.add("T")
+            if isinstance(test.op, ast.Or) and "F" in sub:
+                out.add("F")
+        if isinstance(test.op, ast.Or) and subs and all("T" in sub for sub in subs):
+            out.add("T")
+        if isinstance(test.op, ast.And) and subs and all("F" in sub for sub in subs):
+            out.add("F")
+        return out
+    return set()
+
+
+def _guard_edges(g: CFG, atom) -> Dict[int, Set[str]]:
+    out: Dict[int, Set[str]] = {}
+    for n in g.nodes:
+        if n.kind in ("if", "while") and n.part is not None:
+            es = _edges(g, n.part, n.id, atom)
+            if es:
+                out[n.id] = es
+    return out
+
+
+def _only_through(g: CFG, atom, targets: List[int]) -> Tuple[bool, List[str], int]:
+    """*targets* are reachable from the entry only over a branch edge on which *atom* holds."""
+    ge = _guard_edges(g, atom)
+    seen = g.reach([g.entry], blocked_edges={(n, lab) for n, es in ge.items() for lab in es})
+    for t in targets:
+        if t in seen:
+            return False, g.path_to(seen, t), len(ge)
+    return True, [], len(ge)
+
+
+# ---------------------------------------------------------------------- D1 helpers
+def _fetch_call_context(c: ast.AST, name_var: str) -> Optional[ast.AST]:
+    """The context argument of `self._fetch_parameter_value(<name_var>, ctx)`, else None."""
+    if not (isinstance(c, ast.Call) and dotted_name(c.func) == "self._fetch_parameter_value"):
+        return None
+    a = _call_args(c, ("name", "context"))
+    if a is None or set(a) != {"name", "context"} or not (isinstance(a["name"], ast.Name) and a["name"].id == name_var):
+        return None
+    return a["context"]
+
+
+def _all_parameter_names(g: CFG, e: ast.AST, use: int) -> bool:
+    """*e* iterates over every processing parameter name of the wrapped processor, in declaration order."""
+    v, u = _val(g, e, use)
+    if isinstance(v, ast.Call) and isinstance(v.func, ast.Name) and v.func.id in ("list", "tuple") and len(v.args) == 1 and not v.keywords:
+        v, u = _val(g, v.args[0], u)
+    return isinstance(v, ast.Call) and ast.unparse(v) == "self.processor.get_processing_parameter_names()"
+
+
+def _target_names(g: CFG, nid: int) -> Set[str]:
+    a = g.nodes[nid].ast
+    tg = a.targets if isinstance(a, ast.Assign) else [a.target] if isinstance(a, ast.AnnAssign) else []
+    return {t.id for t in tg if isinstance(t, ast.Name)}
+
+
+def _resolved_kwargs(fn: ast.AST, g: CFG, e: ast.AST, use: int) -> Tuple[bool, str]:
+    """Is the mapping *e* (as seen at node *use*) exactly
+    {n: self._fetch_parameter_value(n, <ctx>) for every processing parameter name n}?
+    Accepted constructions: the result of self._get_processor_parameters(<ctx>), the dict
+    comprehension, or an empty dict filled by one unconditional loop over the names that every path
+    from the dict's creation to *use* goes through - and nothing else mutates the mapping."""
+    vs = _vals(g, e, use)
+    if not vs:
+        return False, "it is built in a way the analysis cannot follow"
+    holders = {e.id} if isinstance(e, ast.Name) else set()
+    for v, u in vs:
+        holders |= _target_names(g, u)
+    muts = mutation_sites(fn, holders) if holders else []
+    for v, u in vs:
+        if isinstance(v, ast.Call) and dotted_name(v.func) == "self._get_processor_parameters" and _call_args(v, ("context",)) is not None:
+            allowed: List[ast.AST] = []
+        elif isinstance(v, ast.DictComp):
+            gen = v.generators[0]
+            if not (len(v.generators) == 1 and not gen.ifs and not gen.is_async and isinstance(gen.target, ast.Name) and isinstance(v.key, ast.Name) and v.key.id == gen.target.id):
+                return False, "the comprehension filters / re-keys the parameter names"
+            if _fetch_call_context(v.value, gen.target.id) is None:
+                return False, f"the value stored under a parameter name is `{ast.unparse(v.value)[:50]}`, not self._fetch_parameter_value(name, context)"
+            if not _all_parameter_names(g, gen.iter, u):
+                return False, f"it is built from `{ast.unparse(gen.iter)[:50]}`, not from every processing parameter name"
+            allowed = []
+        elif (isinstance(v, ast.Dict) and not v.keys) or (isinstance(v, ast.Call) and dotted_name(v.func) == "dict" and not v.args and not v.keywords):
+            accs = _target_names(g, u)
+            stores = [s for s, r in muts if r in accs]
+            if len(accs) != 1 or len(stores) != 1:
+                return False, "the empty mapping is not filled by exactly one store per parameter name"
+            st = stores[0]
+            loop = parent(st)
+            acc = next(iter(accs))
+            okst = isinstance(st, ast.Assign) and len(st.targets) == 1 and isinstance(st.targets[0], ast.Subscript) and isinstance(st.targets[0].value, ast.Name) and st.targets[0].value.id == acc and isinstance(st.targets[0].slice, ast.Name)
+            if not (okst and isinstance(loop, ast.For) and st in loop.body and not loop.orelse and isinstance(loop.target, ast.Name) and loop.target.id == st.targets[0].slice.id):
+                return False, "the store of a resolved value is not the body of a plain loop over the parameter names"
+            if any(isinstance(x, (ast.Continue, ast.Break, ast.Return, ast.Raise, ast.If, ast.Try)) for x in walk_no_nested(loop)) :
+                return False, "the loop over the parameter names can skip a name (if / continue / break / try inside it)"
+            if _fetch_call_context(st.value, loop.target.id) is None:
+                return False, f"the value stored under a parameter name is `{ast.unparse(st.value)[:50]}`, not self._fetch_parameter_value(name, context)"
+            heads = set(g.nodes_for(loop))
+            if not heads or not _all_parameter_names(g, loop.iter, min(heads)):
+                return False, f"the loop runs over `{ast.unparse(loop.iter)[:50]}`, not over every processing parameter name"
+            if g.must_pass([u], [use], lambda n: n.id in heads):
+                return False, "the filling loop is skipped on some path"
+            allowed = [st]
+        else:
+            return False, f"it is `{ast.unparse(v)[:60]}`, which does not come from the resolver"
+        extra = [s for s, _r in muts if not any(s is a for a in allowed)]
+        if extra:
+            return False, f"the resolved parameters are modified afterwards (`{norm(stmt_of(extra[0]))[:50]}`)"
+    return True, ""
+
+
+def _config_as_given(g: CFG, e: ast.AST, use: int, p: str, depth: int = 0) -> bool:
+    """*e* is the constructor's configuration argument itself, a shallow copy of it, or an empty
+    mapping chosen when the argument is missing."""
+    if depth > 10:
+        return False
+    if isinstance(e, ast.IfExp):
+        return {x.id for x in ast.walk(e.test) if isinstance(x, ast.Name)} <= {p, "isinstance", "dict"} and _config_as_given(g, e.body, use, p, depth + 1) and _config_as_given(g, e.orelse, use, p, depth + 1)
+    if isinstance(e, ast.BoolOp) and isinstance(e.op, ast.Or):
+        return all(_config_as_given(g, v, use, p, depth + 1) for v in e.values)
+    if isinstance(e, ast.Dict):
+        return not e.keys
+    if isinstance(e, ast.Call):
+        if isinstance(e.func, ast.Name) and e.func.id == "dict" and not e.keywords:
+            return not e.args or (len(e.args) == 1 and _config_as_given(g, e.args[0], use, p, depth + 1))
+        if isinstance(e.func, ast.Attribute) and e.func.attr == "copy" and not e.args and not e.keywords:
+            return _config_as_given(g, e.func.value, use, p, depth + 1)
+        return False
+    if isinstance(e, ast.Name):
+        bs = _bound_values(g, e.id, use)
+        if bs is None:
+            return False
+        if not bs:
+            return e.id == p
+        return all((v.id == p) if (isinstance(v, ast.Name) and v.id == e.id and d == g.entry) else _config_as_given(g, v, d, p, depth + 1) for v, d in bs)
+    return False
 
 
 def run(repo: Repo, R: Report) -> None:
@@ -62,49 +390,62 @@ def run(repo: Repo, R: Report) -> None:
     fetchers = [(qn, f) for qn, f in nmod.defs.items() if isinstance(f, FuncNode) and f.name == "_fetch_parameter_value"]
     if len(fetchers) < 2:
         raise AnalysisError(f"{len(fetchers)} _fetch_parameter_value definitions found (2 confirmed by reading)")
-    for qn, f in fetchers:
-        rets = [n for n in walk_no_nested(f) if isinstance(n, ast.Return)]
-        ok = len(rets) == 1 and isinstance(rets[0].value, ast.Call) and call_attr(rets[0].value) == "resolve_runtime_value"
-        if ok:
-            c = rets[0].value
-            ok = (dotted_name(kwarg(c, "name")) == f.args.args[1].arg and dotted_name(kwarg(c, "processor_config")) == "self.processor_config"
-                  and dotted_name(kwarg(c, "context")) == f.args.args[2].arg and dotted_name(kwarg(c, "processor_cls")) == "self.processor.__class__")
-            tgt = repo.resolve_call(nmod, c)
-            ok = ok and len(tgt) == 1 and tgt[0][0].rel == PARAMRES
-        R.check(ok, r_res, NODES, qn, "return resolve_runtime_value(name, self.processor.__class__, self.processor_config, context)", "a node resolves parameters by something other than the single-source resolver on its own configuration and the run context", f.lineno)
+    for qn, f0 in fetchers:
+        f = _nf(repo, NODES, qn)
+        g = CFG(f, may_raise=_no_raise)
+        rets = [n for n in g.nodes if n.kind == "stmt" and isinstance(n.ast, ast.Return)]
+        ok = bool(rets) and len(f.args.args) >= 3 and not g.must_pass([g.entry], [g.ret_exit], lambda n: n.kind == "stmt" and isinstance(n.ast, ast.Return))
+        for rn in rets:
+            c, u = _val(g, rn.ast.value, rn.id) if rn.ast.value is not None else (None, rn.id)
+            ok = ok and isinstance(c, ast.Call) and call_attr(c) == "resolve_runtime_value"
+            if ok:
+                a = {k.arg: k.value for k in c.keywords if k.arg is not None} if not c.args and all(k.arg for k in c.keywords) else {}
+                cls_txt = ast.unparse(_val(g, a["processor_cls"], u)[0]) if "processor_cls" in a else ""
+                ok = (_is_param(g, a.get("name"), u, f.args.args[1].arg) and _is_param(g, a.get("context"), u, f.args.args[2].arg)
+                      and "processor_config" in a and dotted_name(_val(g, a["processor_config"], u)[0]) == "self.processor_config"
+                      and cls_txt in ("self.processor.__class__", "type(self.processor)"))
+                tgt = repo.resolve_call(nmod, c)
+                ok = ok and len(tgt) == 1 and tgt[0][0].rel == PARAMRES
+        R.check(ok, r_res, NODES, qn, "return resolve_runtime_value(name, self.processor.__class__, self.processor_config, context)", "a node resolves parameters by something other than the single-source resolver on its own configuration and the run context", f0.lineno)
     # parameter dict = fetch for every processing parameter name
-    gpp = repo.func(NODES, "_DataNode._get_processor_parameters")
-    ctxp = gpp.args.args[1].arg
-    lp = find1(gpp, f"for _n_ in _P_:\n    _D_[_n_] = self._fetch_parameter_value(_n_, {ctxp})")
-    ok = lp is not None and any(ast.unparse(v) == "self.processor.get_processing_parameter_names()" for v in ([lp[1]["_P_"]] if not isinstance(lp[1]["_P_"], ast.Name) else assigned_value(gpp, lp[1]["_P_"].id))) and not any(isinstance(n, (ast.If, ast.Continue, ast.Break, ast.Try)) for n in ast.walk(gpp))
-    if lp is None:
-        dc = find1(gpp, f"{{_n_: self._fetch_parameter_value(_n_, {ctxp}) for _n_ in _P_}}")
-        ok = dc is not None and "get_processing_parameter_names()" in ast.unparse(gpp)
-    R.check(ok, r_res, NODES, "_DataNode._get_processor_parameters", "parameters[name] = _fetch_parameter_value(name, context) for every processing parameter", "some processing parameters bypass (or are skipped by) the resolver", gpp.lineno)
+    gpp0 = repo.func(NODES, "_DataNode._get_processor_parameters")
+    gpp = _nf(repo, NODES, "_DataNode._get_processor_parameters")
+    g = CFG(gpp, may_raise=_no_raise)
+    rets = [n for n in g.nodes if n.kind == "stmt" and isinstance(n.ast, ast.Return)]
+    ok, why = bool(rets) and not g.must_pass([g.entry], [g.ret_exit], lambda n: n.kind == "stmt" and isinstance(n.ast, ast.Return)), "a path returns no mapping"
+    for rn in rets:
+        if ok:
+            ok, why = _resolved_kwargs(gpp, g, rn.ast.value, rn.id) if rn.ast.value is not None else (False, "a path returns no mapping")
+            if ok and any(isinstance(v, ast.Call) and dotted_name(v.func) == "self._get_processor_parameters" for v, _u in _vals(g, rn.ast.value, rn.id) or []):
+                ok, why = False, "it calls itself"
+    R.check(ok, r_res, NODES, "_DataNode._get_processor_parameters", "parameters[name] = _fetch_parameter_value(name, context) for every processing parameter", f"some processing parameters bypass (or are skipped by) the resolver: {why}", gpp0.lineno)
     # overrides that run the processor obtain kwargs from the resolver
-    for qn, f in [(q, n) for q, n in nmod.defs.items() if isinstance(n, FuncNode) and n.name == "_process_single_item_with_context"]:
+    for qn, f0 in [(q, n) for q, n in nmod.defs.items() if isinstance(n, FuncNode) and n.name == "_process_single_item_with_context"]:
+        f = _nf(repo, NODES, qn)
+        g = CFG(f, may_raise=_no_raise)
         proc_calls = [c for c in calls_in(f) if isinstance(c.func, ast.Attribute) and c.func.attr in ("process", "operate_context") and dotted_name(c.func.value) == "self.processor"]
         for c in proc_calls:
             star = [k.value for k in c.keywords if k.arg is None]
-            ok = False
-            for s in star:
-                vals = assigned_value(f, s.id) if isinstance(s, ast.Name) else []
-                direct = any(isinstance(v, ast.Call) and call_attr(v) == "_get_processor_parameters" for v in vals)
-                looped = any(isinstance(n, ast.Assign) and any(isinstance(t, ast.Subscript) and dotted_name(t.value) == getattr(s, "id", None) for t in n.targets) and isinstance(n.value, ast.Call) and call_attr(n.value) == "_fetch_parameter_value" for n in ast.walk(f))
-                ok = ok or direct or looped
-            R.check(ok, r_res, NODES, qn, norm(c)[:80], "the processor is invoked with keyword arguments that do not come from the resolver", c.lineno)
+            use = _node_of(g, c)
+            ok, why = bool(star) and use is not None, "no resolved parameters are passed"
+            for s_ in star:
+                if ok:
+                    ok, why = _resolved_kwargs(f, g, s_, use)
+            explicit = sorted(k.arg for k in c.keywords if k.arg is not None and k.arg not in ("context", "context_observer", "data"))
+            if ok and explicit:
+                ok, why = False, f"parameter(s) {explicit} are passed explicitly next to the resolved ones"
+            R.check(ok, r_res, NODES, qn, norm(c)[:80], f"the processor is invoked with keyword arguments that do not come from the resolver: {why}", c.lineno)
     # configuration kept as given
     for cls_name in ("_DataNode", "_ContextProcessorNode"):
-        init = repo.func(NODES, f"{cls_name}.__init__")
-        stores = [n for n in walk_no_nested(init) if isinstance(n, ast.Assign) and any(dotted_name(t) == "self.processor_config" for t in n.targets)]
-        ok = len(stores) == 1
-        for s in stores:
-            v = s.value
-            names = {x.id for x in ast.walk(v) if isinstance(x, ast.Name)}
-            calls = [c for c in ast.walk(v) if isinstance(c, ast.Call) and call_attr(c) not in ("dict", "copy")]
-            ok = ok and names <= {"processor_config", "dict"} and "processor_config" in names and not calls and not any(isinstance(x, (ast.DictComp, ast.ListComp)) for x in ast.walk(v))
+        init0 = repo.func(NODES, f"{cls_name}.__init__")
+        init = _nf(repo, NODES, f"{cls_name}.__init__")
+        g = CFG(init, may_raise=_no_raise)
+        cfg_p = next((a.arg for a in init.args.args[1:] + init.args.kwonlyargs if a.arg == "processor_config"), None) or (init.args.args[2].arg if len(init.args.args) > 2 else "processor_config")
+        stores = [n for n in g.nodes if n.kind == "stmt" and isinstance(n.ast, (ast.Assign, ast.AnnAssign, ast.AugAssign)) and any(dotted_name(t) == "self.processor_config" for t in (n.ast.targets if isinstance(n.ast, ast.Assign) else [n.ast.target]))]
+        ok = bool(stores) and all(isinstance(n.ast, (ast.Assign, ast.AnnAssign)) and n.ast.value is not None and _config_as_given(g, n.ast.value, n.id, cfg_p) for n in stores)
         later = [n for n in ast.walk(init) if (isinstance(n, ast.Call) and isinstance(n.func, ast.Attribute) and dotted_name(n.func.value) == "self.processor_config" and n.func.attr in ("pop", "update", "clear", "setdefault", "popitem")) or (isinstance(n, (ast.Delete,)) and "self.processor_config" in ast.unparse(n))]
-        R.check(ok and not later, r_res, NODES, f"{cls_name}.__init__", "self.processor_config = processor_config (or {})", "the node configuration is transformed before use (entries dropped / rewritten): a configured value can lose its precedence over the context", init.lineno)
+        later += [s_ for s_, _r in mutation_sites(init, {cfg_p})]
+        R.check(ok and not later, r_res, NODES, f"{cls_name}.__init__", "self.processor_config = processor_config (or {})", "the node configuration is transformed before use (entries dropped / rewritten): a configured value can lose its precedence over the context", init0.lineno)
     rrv = repo.func(PARAMRES, "resolve_runtime_value")
     chain = extract_chain(rrv)
     want = [("config", "config"), ("context", "context"), ("default", "default"), ("always", "raise:KeyError")]
@@ -123,99 +464,153 @@ def run(repo: Repo, R: Report) -> None:
 
     # ------------------------------------------------------------------ D2
     r_gate = R.rule("C01-D2-type-gate", "a data node runs only after issubclass(type(data), processor.input_data_type()) held for the data it is given (else TypeError), and the payload handed to the node is the caller's (only None is normalised)", 4)
-    proc = repo.func(NODES, "_DataNode._process")
-    g = CFG(proc, may_raise=lambda p: set())
+    proc0 = repo.func(NODES, "_DataNode._process")
+    proc = _nf(repo, NODES, "_DataNode._process")
+    g = CFG(proc, may_raise=_no_raise)
+    payload_p = proc.args.args[1].arg if len(proc.args.args) > 1 else "payload"
     calls = [n for n in g.nodes if n.ast is not None and n.kind == "stmt" and any(call_attr(c) == "_process_single_item_with_context" for c in calls_in(n.ast))]
     if not calls:
         raise AnalysisError("_DataNode._process: call of _process_single_item_with_context not found")
-    data_vars: Set[str] = set()
-    type_vars: Set[str] = set()
-    for n in walk_no_nested(proc):
-        if isinstance(n, ast.Assign):
-            txt = ast.unparse(n.value)
-            for t in n.targets:
-                for x in (t.elts if isinstance(t, ast.Tuple) else [t]):
-                    if isinstance(x, ast.Name):
-                        if "payload.data" in txt:
-                            data_vars.add(x.id)
-                        if "input_data_type()" in txt and "self.processor" in txt:
-                            type_vars.add(x.id)
 
-    def gate_atom(e: ast.AST) -> Optional[bool]:
-        if isinstance(e, ast.Call) and call_attr(e) in ("issubclass", "isinstance") and len(e.args) == 2:
+    def gate_atom(e: ast.AST, use: int) -> Optional[bool]:
+        """issubclass(type(<payload.data>), <processor input type>) / isinstance(<payload.data>, <processor input type>)"""
+        if isinstance(e, ast.Call) and isinstance(e.func, ast.Name) and e.func.id in ("issubclass", "isinstance") and len(e.args) == 2 and not e.keywords:
             a, b = e.args
-            subj = a.args[0] if isinstance(a, ast.Call) and call_attr(a) == "type" and a.args else (a if call_attr(e) == "isinstance" else None)
-            if subj is not None and (dotted_name(subj) in data_vars or dotted_name(subj) == "payload.data") and (dotted_name(b) in type_vars or "input_data_type()" in ast.unparse(b)):
+            subj: Optional[ast.AST] = a
+            if e.func.id == "issubclass":
+                ta, tu = _val(g, a, use)
+                subj = ta.args[0] if isinstance(ta, ast.Call) and isinstance(ta.func, ast.Name) and ta.func.id == "type" and len(ta.args) == 1 else None
+                use_s = tu
+            else:
+                use_s = use
+            tv, _tu = _val(g, b, use)
+            type_ok = isinstance(tv, ast.Call) and not tv.args and not tv.keywords and isinstance(tv.func, ast.Attribute) and tv.func.attr == "input_data_type" and ast.unparse(tv.func.value) in ("self.processor", "self", "type(self.processor)", "self.processor.__class__")
+            if subj is not None and type_ok and _is_run_input(g, subj, use_s, payload_p, "data"):
                 return True
         return None
 
-    holds, path, guards = returns_only_through(g, gate_atom, targets=[n.id for n in calls])
-    R.check(holds and guards > 0, r_gate, NODES, "_DataNode._process", "issubclass(type(data), input_type) dominates the node body", "a data node can run on data that is not an instance of its processor's declared input type", proc.lineno, path)
-    gate_ifs = [n for n in g.nodes if n.kind == "if" and n.part is not None and edges_guaranteeing(n.part, gate_atom)]
-    ok = bool(gate_ifs)
-    for n in gate_ifs:
-        other = n.ast.orelse if "T" in edges_guaranteeing(n.part, gate_atom) else n.ast.body
-        ok = ok and bool(other) and isinstance(other[-1], ast.Raise) and "TypeError" in ast.unparse(other[-1])
-    R.check(ok, r_gate, NODES, "_DataNode._process", "rejected data raises TypeError", "incompatible data does not raise TypeError at this node", proc.lineno)
-    c0 = next(c for c in calls_in(calls[0].ast) if call_attr(c) == "_process_single_item_with_context")
-    arg_txt = ast.unparse(c0.args[0]) if c0.args else ""
-    R.check(any(v in arg_txt for v in data_vars) or "payload" == arg_txt, r_gate, NODES, "_DataNode._process", norm(c0)[:80], "the data that was type-checked is not the data handed to the node", proc.lineno)
-    pp = repo.func(PAYP, "_PayloadProcessor.process")
+    holds, path, guards = _only_through(g, gate_atom, [n.id for n in calls])
+    R.check(holds and guards > 0, r_gate, NODES, "_DataNode._process", "issubclass(type(data), input_type) dominates the node body", "a data node can run on data that is not an instance of its processor's declared input type", proc0.lineno, path)
+    # on the other edge of the gate every path ends in `raise TypeError`
+    ge = _guard_edges(g, gate_atom)
+    ok = bool(ge)
+    for nid, es in ge.items():
+        starts = [t for t, lab in g.succ[nid] if lab in ({"T", "F"} - es)]
+        seen = g.reach(starts)
+        raises = [g.nodes[x].ast for x in seen if g.nodes[x].kind == "stmt" and isinstance(g.nodes[x].ast, ast.Raise)]
+        ok = ok and bool(starts) and g.ret_exit not in seen and bool(raises) and all(rz.exc is not None and dotted_name(rz.exc.func if isinstance(rz.exc, ast.Call) else rz.exc) == "TypeError" for rz in raises)
+    R.check(ok, r_gate, NODES, "_DataNode._process", "rejected data raises TypeError", "incompatible data does not raise TypeError at this node", proc0.lineno)
     ok = True
-    bad_stmt = None
-    for n in ast.walk(pp):
-        if isinstance(n, ast.Assign) and any(dotted_name(t) == "payload" for t in n.targets) and isinstance(n.value, ast.Call) and call_attr(n.value) == "Payload" and n.value.args:
-            d0 = n.value.args[0]
-            if ast.unparse(d0) == "payload.data":
-                continue
-            tests = [a.test for a in ancestors(n) if isinstance(a, ast.If) and any(x is n for s in a.body for x in ast.walk(s))]
-
-            def none_atom(e: ast.AST) -> Optional[bool]:
-                if isinstance(e, ast.Compare) and len(e.ops) == 1 and isinstance(e.ops[0], ast.Is) and isinstance(e.comparators[0], ast.Constant) and e.comparators[0].value is None and dotted_name(e.left) in ("payload", "payload.data"):
-                    return True
-                return None
-
-            if not any("T" in edges_guaranteeing(t, none_atom) for t in tests):
+    c0 = None
+    for cn in calls:
+        for c0 in [c for c in calls_in(cn.ast) if call_attr(c) == "_process_single_item_with_context"]:
+            av, au = _val(g, c0.args[0], cn.id) if c0.args else (kwarg(c0, "payload"), cn.id)
+            if isinstance(av, ast.Name):
+                ok = ok and _is_param(g, av, au, payload_p)
+            elif isinstance(av, ast.Call) and call_attr(av) == "Payload":
+                pa = _call_args(av, ("data", "context")) or {}
+                ok = ok and "data" in pa and _is_run_input(g, pa["data"], au, payload_p, "data")
+            else:
                 ok = False
-                bad_stmt = n
-    R.check(ok, r_gate, PAYP, "_PayloadProcessor.process", "data is replaced only when it is None", f"`{norm(bad_stmt)[:70]}` substitutes the caller's data before the node sees it: a node that must reject the data silently runs (and later nodes too)" if bad_stmt is not None else "", pp.lineno)
+    R.check(ok, r_gate, NODES, "_DataNode._process", norm(c0)[:80] if c0 is not None else "_process_single_item_with_context(...)", "the data that was type-checked is not the data handed to the node", proc0.lineno)
+    pp0 = repo.func(PAYP, "_PayloadProcessor.process")
+    pp = _nf(repo, PAYP, "_PayloadProcessor.process")
+    g = CFG(pp, may_raise=_no_raise)
+    pp_payload = pp.args.args[1].arg if len(pp.args.args) > 1 else "payload"
+
+    def none_atom(e: ast.AST, use: int) -> Optional[bool]:
+        """`payload is None` / `payload.data is None` (the data may be named)"""
+        if isinstance(e, ast.Compare) and len(e.ops) == 1 and isinstance(e.ops[0], (ast.Is, ast.IsNot)) and isinstance(e.comparators[0], ast.Constant) and e.comparators[0].value is None:
+            if dotted_name(_val(g, e.left, use)[0]) in (pp_payload, f"{pp_payload}.data"):
+                return isinstance(e.ops[0], ast.Is)
+        return None
+
+    bad_stmt: List[ast.AST] = []
+
+    def substitutions(v: ast.AST, use: int, guarded: bool, st: ast.AST) -> None:
+        """Payload(<something else than the caller's data>, ...) assigned to the payload outside a `... is None` arm"""
+        if isinstance(v, ast.IfExp):
+            es = _edges(g, v.test, use, none_atom)
+            substitutions(v.body, use, guarded or "T" in es, st)
+            substitutions(v.orelse, use, guarded or "F" in es, st)
+        elif isinstance(v, ast.Call) and call_attr(v) == "Payload":
+            pa = _call_args(v, ("data", "context")) or {}
+            d0 = pa.get("data")
+            if d0 is not None and dotted_name(_val(g, d0, use)[0]) == f"{pp_payload}.data":
+                return
+            if not guarded and not _only_through(g, none_atom, [use])[0]:
+                bad_stmt.append(st)
+
+    for n in g.nodes:
+        if n.kind == "stmt" and isinstance(n.ast, (ast.Assign, ast.AnnAssign)) and n.ast.value is not None and _defines(n, pp_payload):
+            v = _assigned_component(n.ast, pp_payload)
+            if v is not None:
+                substitutions(v, n.id, False, n.ast)
+    R.check(not bad_stmt, r_gate, PAYP, "_PayloadProcessor.process", "data is replaced only when it is None", f"`{norm(bad_stmt[0])[:70]}` substitutes the caller's data before the node sees it: a node that must reject the data silently runs (and later nodes too)" if bad_stmt else "", pp0.lineno)
 
     # ------------------------------------------------------------------ D3
     r_probe = R.rule("C01-D3-probe-and-operation-dataflow", "probe nodes return the input data unchanged and write the probe result under self.context_key on every path; operation nodes return the processor result as data", 6)
+    def returned_payloads(f: ast.AST, g: CFG) -> Optional[List[Tuple[Dict[str, ast.AST], int]]]:
+        """(arguments by name, node) of the Payload(...) built for every value the function returns; None when
+        a path returns something else / nothing."""
+        out: List[Tuple[Dict[str, ast.AST], int]] = []
+        rets = [n for n in g.nodes if n.kind == "stmt" and isinstance(n.ast, ast.Return)]
+        if not rets or g.must_pass([g.entry], [g.ret_exit], lambda n: n.kind == "stmt" and isinstance(n.ast, ast.Return)):
+            return None
+        for rn in rets:
+            vs = _vals(g, rn.ast.value, rn.id) if rn.ast.value is not None else None
+            if not vs:
+                return None
+            for v, u in vs:
+                pa = _call_args(v, ("data", "context")) if isinstance(v, ast.Call) and call_attr(v) == "Payload" else None
+                if not pa or set(pa) != {"data", "context"}:
+                    return None
+                out.append((pa, u))
+        return out
+
+    def is_process_result(g: CFG, e: ast.AST, use: int, depth: int = 0) -> bool:
+        """*e* is computed from the value self.processor.process(...) returned (directly, through locals, or
+        as the element of a loop over it)."""
+        if depth > 8:
+            return False
+        for x in ast.walk(e):
+            if isinstance(x, ast.Call) and dotted_name(x.func) == "self.processor.process":
+                return True
+        for nm in sorted({x.id for x in ast.walk(e) if isinstance(x, ast.Name)}):
+            bs = _bound_values(g, nm, use)
+            if bs is None:
+                for d in reaching_defs(g, nm, use):
+                    if d.kind == "for" and isinstance(d.ast, ast.For) and is_process_result(g, d.ast.iter, d.id, depth + 1):
+                        return True
+                continue
+            if bs and all(not (isinstance(v, ast.Name) and v.id == nm and d == g.entry) and is_process_result(g, v, d, depth + 1) for v, d in bs):
+                return True
+        return False
+
     for qn in ("_ProbeContextInjectorNode._process_single_item_with_context", "_DataOperationContextInjectorProbeNode._process_single_item_with_context", "_ProbeResultCollectorNode._process_single_item_with_context"):
-        f = repo.func(NODES, qn)
-        rets = [n for n in walk_no_nested(f) if isinstance(n, ast.Return)]
-        ok = bool(rets)
-        for r in rets:
-            v = r.value
-            ok = ok and isinstance(v, ast.Call) and call_attr(v) == "Payload" and len(v.args) == 2
-            if ok:
-                d = v.args[0]
-                vals = assigned_value(f, d.id) if isinstance(d, ast.Name) else [d]
-                ok = bool(vals) and all(ast.unparse(x) == "payload.data" for x in vals)
-        R.check(ok, r_probe, NODES, qn, "return Payload(<payload.data>, context)", "a probe node changes the data it passes on (e.g. returns the probe result)", f.lineno)
+        f0 = repo.func(NODES, qn)
+        f = _nf(repo, NODES, qn)
+        gg = CFG(f, may_raise=_no_raise)
+        pl = f.args.args[1].arg if len(f.args.args) > 1 else "payload"
+        rp = returned_payloads(f, gg)
+        ok = bool(rp) and all(_is_run_input(gg, pa["data"], u, pl, "data") for pa, u in rp)
+        R.check(ok, r_probe, NODES, qn, "return Payload(<payload.data>, context)", "a probe node changes the data it passes on (e.g. returns the probe result)", f0.lineno)
         if "Collector" in qn:
             continue
-        gg = CFG(f, may_raise=lambda p: set())
-        res_vars = {t.id for n in walk_no_nested(f) if isinstance(n, ast.Assign) and isinstance(n.value, ast.Call) and dotted_name(n.value.func) == "self.processor.process" for t in n.targets if isinstance(t, ast.Name)}
 
-        def is_keyed_write(n) -> bool:
+        def is_keyed_write(n, gg=gg) -> bool:
             if n.ast is None or n.kind != "stmt":
                 return False
             for c in calls_in(n.ast):
-                if call_attr(c) == "update_context" and len(c.args) >= 3 and dotted_name(c.args[1]) == "self.context_key":
-                    v = c.args[2]
-                    names = {x.id for x in ast.walk(v) if isinstance(x, ast.Name)}
-                    src = set(names)
-                    for a in ancestors(c):
-                        if isinstance(a, ast.For):
-                            src |= {x.id for x in ast.walk(a.iter) if isinstance(x, ast.Name)}
-                    if src & res_vars:
-                        return True
+                if call_attr(c) != "update_context":
+                    continue
+                a = _call_args(c, ("context", "key", "value", "index"))
+                if a and "key" in a and "value" in a and dotted_name(_val(gg, a["key"], n.id)[0]) == "self.context_key" and is_process_result(gg, a["value"], n.id):
+                    return True
             return False
 
         # collection branch writes inside a loop: count the loop header as the write
-        def covers(n) -> bool:
+        def covers(n, gg=gg) -> bool:
             if is_keyed_write(n):
                 return True
             if n.kind == "for" and any(is_keyed_write(m) for m in gg.nodes if m.ast is not None and any(a is n.ast for a in ancestors(m.ast))):
@@ -223,63 +618,95 @@ def run(repo: Repo, R: Report) -> None:
             return False
 
         bad = gg.must_pass([gg.entry], [gg.ret_exit], covers)
-        R.check(not bad and bool(res_vars), r_probe, NODES, qn, "update_context(context, self.context_key, <probe result>) on every path", "the probe result is not stored under the node's context key on some path (literal key, skipped when falsy, ...)", f.lineno, bad[0][1] if bad else None)
-    f = repo.func(NODES, "_DataNode._process_single_item_with_context")
-    rets = [n for n in walk_no_nested(f) if isinstance(n, ast.Return)]
-    ok = len(rets) == 1 and isinstance(rets[0].value, ast.Call) and call_attr(rets[0].value) == "Payload"
-    if ok:
-        d = rets[0].value.args[0]
-        vals = assigned_value(f, d.id) if isinstance(d, ast.Name) else [d]
-        ok = bool(vals) and all(isinstance(v, ast.Call) and dotted_name(v.func) == "self.processor.process" for v in vals)
-    R.check(ok, r_probe, NODES, "_DataNode._process_single_item_with_context", "return Payload(self.processor.process(data, **parameters), context)", "an operation node does not replace the data with the processor's result", f.lineno)
+        R.check(not bad and any(is_keyed_write(n) for n in gg.nodes), r_probe, NODES, qn, "update_context(context, self.context_key, <probe result>) on every path", "the probe result is not stored under the node's context key on some path (literal key, skipped when falsy, ...)", f0.lineno, bad[0][1] if bad else None)
+    f0 = repo.func(NODES, "_DataNode._process_single_item_with_context")
+    f = _nf(repo, NODES, "_DataNode._process_single_item_with_context")
+    gg = CFG(f, may_raise=_no_raise)
+    rp = returned_payloads(f, gg)
+    ok = bool(rp)
+    for pa, u in rp or []:
+        vs = _vals(gg, pa["data"], u)
+        ok = ok and bool(vs) and all(isinstance(v, ast.Call) and dotted_name(v.func) == "self.processor.process" for v, _u in vs)
+    R.check(ok, r_probe, NODES, "_DataNode._process_single_item_with_context", "return Payload(self.processor.process(data, **parameters), context)", "an operation node does not replace the data with the processor's result", f0.lineno)
 
     # ------------------------------------------------------------------ D4
     r_keys = R.rule("C01-D4-declared-key-enforcement", "context writes/deletes are accepted only for declared keys: the validating observer and DataOperation._notify_context_update test membership before writing; context-processor nodes hand the processor a validating observer built from its own created/suppressed keys; the observer is reset after the call", 7)
     for meth, allowed in (("update", "self._allowed_context_keys"), ("delete", "self._allowed_suppressed_keys")):
-        f = repo.func(OBS, f"_ValidatingContextObserver.{meth}")
-        gg = CFG(f, may_raise=lambda p: set())
+        f0 = repo.func(OBS, f"_ValidatingContextObserver.{meth}")
+        f = _nf(repo, OBS, f"_ValidatingContextObserver.{meth}")
+        gg = CFG(f, may_raise=_no_raise)
         supers = [n.id for n in gg.nodes if n.ast is not None and n.kind == "stmt" and any(isinstance(c.func, ast.Attribute) and c.func.attr == meth and isinstance(c.func.value, ast.Call) and call_attr(c.func.value) == "super" for c in calls_in(n.ast))]
 
-        def member(e: ast.AST, allowed=allowed) -> Optional[bool]:
-            if isinstance(e, ast.Compare) and len(e.ops) == 1 and isinstance(e.ops[0], (ast.In, ast.NotIn)) and dotted_name(e.left) == f.args.args[1].arg and dotted_name(e.comparators[0]) == allowed:
+        def member(e: ast.AST, use: int, allowed=allowed, f=f, gg=gg) -> Optional[bool]:
+            if isinstance(e, ast.Compare) and len(e.ops) == 1 and isinstance(e.ops[0], (ast.In, ast.NotIn)) and _is_param(gg, e.left, use, f.args.args[1].arg) and dotted_name(_val(gg, e.comparators[0], use)[0]) == allowed:
                 return isinstance(e.ops[0], ast.In)
             return None
 
-        holds, path, guards = returns_only_through(gg, member, targets=supers)
-        R.check(holds and guards > 0 and bool(supers), r_keys, OBS, f"_ValidatingContextObserver.{meth}", f"key in {allowed} dominates super().{meth}", f"an undeclared key can be {'written' if meth == 'update' else 'deleted'} through the validating observer", f.lineno, path)
-    vinit = repo.func(OBS, "_ValidatingContextObserver.__init__")
-    src = ast.unparse(vinit)
-    R.check("self._allowed_context_keys = set(context_keys)" in src and "self._allowed_suppressed_keys = set(suppressed_keys)" in src, r_keys, OBS, "_ValidatingContextObserver.__init__", "allowed sets = the constructor arguments", "the allowed key sets are not the declared created / suppressed keys", vinit.lineno)
-    ncu = repo.func(DPROC, "DataOperation._notify_context_update")
-    gg = CFG(ncu, may_raise=lambda p: set())
-    writes = [n.id for n in gg.nodes if n.ast is not None and n.kind == "stmt" and any(call_attr(c) in ("set_value", "update", "update_context") for c in calls_in(n.ast))]
+        holds, path, guards = _only_through(gg, member, supers)
+        R.check(holds and guards > 0 and bool(supers), r_keys, OBS, f"_ValidatingContextObserver.{meth}", f"key in {allowed} dominates super().{meth}", f"an undeclared key can be {'written' if meth == 'update' else 'deleted'} through the validating observer", f0.lineno, path)
+    vinit0 = repo.func(OBS, "_ValidatingContextObserver.__init__")
+    vinit = _nf(repo, OBS, "_ValidatingContextObserver.__init__")
+    gg = CFG(vinit, may_raise=_no_raise)
+    ok = len(vinit.args.args) >= 3
+    for attr, idx in (("self._allowed_context_keys", 1), ("self._allowed_suppressed_keys", 2)):
+        stores = [n for n in gg.nodes if n.kind == "stmt" and isinstance(n.ast, (ast.Assign, ast.AnnAssign)) and n.ast.value is not None and any(dotted_name(t) == attr for t in (n.ast.targets if isinstance(n.ast, ast.Assign) else [n.ast.target]))]
+        ok = ok and len(stores) >= 1
+        for sn in stores:
+            v, u = _val(gg, sn.ast.value, sn.id)
+            ok = ok and isinstance(v, ast.Call) and isinstance(v.func, ast.Name) and v.func.id in ("set", "frozenset", "list", "tuple") and len(v.args) == 1 and not v.keywords and _is_param(gg, v.args[0], u, vinit.args.args[idx].arg)
+    R.check(ok, r_keys, OBS, "_ValidatingContextObserver.__init__", "allowed sets = the constructor arguments", "the allowed key sets are not the declared created / suppressed keys", vinit0.lineno)
+    ncu0 = repo.func(DPROC, "DataOperation._notify_context_update")
+    ncu = _nf(repo, DPROC, "DataOperation._notify_context_update")
+    gg = CFG(ncu, may_raise=_no_raise)
+    writes = [n.id for n in gg.nodes if n.ast is not None and n.kind == "stmt" and any(call_attr(c) in ("set_value", "update", "update_context", "set_item_value", "__setitem__") for c in calls_in(n.ast))]
+    writes += [n.id for n in gg.nodes if n.kind == "stmt" and isinstance(n.ast, ast.Assign) and any(isinstance(t, ast.Subscript) for t in n.ast.targets)]
 
-    def declared(e: ast.AST) -> Optional[bool]:
-        if isinstance(e, ast.Compare) and len(e.ops) == 1 and isinstance(e.ops[0], (ast.In, ast.NotIn)) and dotted_name(e.left) == ncu.args.args[1].arg and "context_keys()" in ast.unparse(e.comparators[0]):
-            return isinstance(e.ops[0], ast.In)
+    def declared(e: ast.AST, use: int) -> Optional[bool]:
+        if isinstance(e, ast.Compare) and len(e.ops) == 1 and isinstance(e.ops[0], (ast.In, ast.NotIn)) and _is_param(gg, e.left, use, ncu.args.args[1].arg):
+            cv = _val(gg, e.comparators[0], use)[0]
+            if isinstance(cv, ast.Call) and isinstance(cv.func, ast.Name) and cv.func.id in ("set", "frozenset", "list", "tuple") and len(cv.args) == 1:
+                cv = _val(gg, cv.args[0], use)[0]
+            if isinstance(cv, ast.Call) and isinstance(cv.func, ast.Attribute) and cv.func.attr == "context_keys" and not cv.args:
+                return isinstance(e.ops[0], ast.In)
         return None
 
-    holds, path, guards = returns_only_through(gg, declared, targets=writes)
-    R.check(holds and guards > 0 and bool(writes), r_keys, DPROC, "DataOperation._notify_context_update", "key in self.context_keys() dominates the write", "a data operation can write a context key it did not declare", ncu.lineno, path)
-    cpn = repo.func(NODES, "_ContextProcessorNode._process_single_item_with_context")
+    holds, path, guards = _only_through(gg, declared, writes)
+    R.check(holds and guards > 0 and bool(writes), r_keys, DPROC, "DataOperation._notify_context_update", "key in self.context_keys() dominates the write", "a data operation can write a context key it did not declare", ncu0.lineno, path)
+    cpn0 = repo.func(NODES, "_ContextProcessorNode._process_single_item_with_context")
+    cpn = _nf(repo, NODES, "_ContextProcessorNode._process_single_item_with_context")
+    gg = CFG(cpn, may_raise=_no_raise)
+    cpn_payload = cpn.args.args[1].arg if len(cpn.args.args) > 1 else "payload"
     oc = next((c for c in calls_in(cpn) if call_attr(c) == "operate_context"), None)
     ok = False
+    observer_ctor_nodes: Set[int] = set()
     if oc is not None:
         ob = kwarg(oc, "context_observer")
-        vals = assigned_value(cpn, ob.id) if isinstance(ob, ast.Name) else []
-        ok = bool(vals) and all(isinstance(v, ast.Call) and call_attr(v) == "_ValidatingContextObserver" for v in vals)
-        if ok:
-            v = vals[0]
-            ck, sk = kwarg(v, "context_keys"), kwarg(v, "suppressed_keys")
-            ckd = assigned_value(cpn, ck.id) if isinstance(ck, ast.Name) else [ck]
-            skd = assigned_value(cpn, sk.id) if isinstance(sk, ast.Name) else [sk]
-            ok = any("get_created_keys()" in ast.unparse(x) for x in ckd if x is not None) and any("get_suppressed_keys()" in ast.unparse(x) for x in skd if x is not None)
-            ok = ok and all(isinstance(x, ast.List) and not x.elts or "get_created_keys()" in ast.unparse(x) for x in ckd if x is not None)
-            ok = ok and all(isinstance(x, ast.List) and not x.elts or "get_suppressed_keys()" in ast.unparse(x) for x in skd if x is not None)
-    R.check(ok, r_keys, NODES, "_ContextProcessorNode._process_single_item_with_context", "operate_context(context_observer=_ValidatingContextObserver(created keys, suppressed keys))", "a context processor runs with an observer that does not restrict it to its declared created / suppressed keys", cpn.lineno)
-    ctx_locals = {t.id for n in walk_no_nested(cpn) if isinstance(n, ast.Assign) and ast.unparse(n.value).endswith(".context") for t in n.targets if isinstance(t, ast.Name)}
-    bound = any(isinstance(n, ast.Assign) and dotted_name(n.targets[0]) and dotted_name(n.targets[0]).endswith(".observer_context") and dotted_name(n.value) in ctx_locals and not dotted_name(n.targets[0]).startswith("self.") for n in walk_no_nested(cpn))
-    R.check(bound, r_keys, NODES, "_ContextProcessorNode._process_single_item_with_context", "validating_observer.observer_context = context", "the observer is not bound to the run's context", cpn.lineno)
+        use = _node_of(gg, oc)
+        vals = _vals(gg, ob, use) if ob is not None and use is not None else None
+        ok = bool(vals) and all(isinstance(v, ast.Call) and call_attr(v) == "_ValidatingContextObserver" for v, _u in vals)
+        for v, u in vals or []:
+            if not ok:
+                break
+            observer_ctor_nodes.add(u)
+            a = _call_args(v, ("context_keys", "suppressed_keys", "logger")) or {}
+            for pname, getter in (("context_keys", "get_created_keys"), ("suppressed_keys", "get_suppressed_keys")):
+                leaves = _vals(gg, a[pname], u) if pname in a else None
+                empty = lambda x: isinstance(x, (ast.List, ast.Tuple)) and not x.elts
+                from_decl = lambda x, getter=getter: isinstance(x, ast.Call) and isinstance(x.func, ast.Attribute) and x.func.attr == getter and not x.args and ast.unparse(x.func.value) in ("self", "self.processor", "type(self)", "self.__class__", "type(self.processor)", "self.processor.__class__")
+                ok = ok and bool(leaves) and all(empty(x) or from_decl(x) for x, _u in leaves) and any(from_decl(x) for x, _u in leaves)
+    R.check(ok, r_keys, NODES, "_ContextProcessorNode._process_single_item_with_context", "operate_context(context_observer=_ValidatingContextObserver(created keys, suppressed keys))", "a context processor runs with an observer that does not restrict it to its declared created / suppressed keys", cpn0.lineno)
+    # the observer handed to the processor is bound to the run's context before the processor runs
+    bound = False
+    if oc is not None and observer_ctor_nodes:
+        oc_node = _node_of(gg, oc)
+        binders = []
+        for n in gg.nodes:
+            if n.kind == "stmt" and isinstance(n.ast, ast.Assign) and len(n.ast.targets) == 1 and isinstance(n.ast.targets[0], ast.Attribute) and n.ast.targets[0].attr == "observer_context" and isinstance(n.ast.targets[0].value, ast.Name):
+                tv = _vals(gg, n.ast.targets[0].value, n.id)
+                if tv and all(u in observer_ctor_nodes for _v, u in tv) and _is_run_input(gg, n.ast.value, n.id, cpn_payload, "context"):
+                    binders.append(n.id)
+        bound = bool(binders) and oc_node is not None and not gg.must_pass([gg.entry], [oc_node], lambda n: n.id in binders)
+    R.check(bound, r_keys, NODES, "_ContextProcessorNode._process_single_item_with_context", "validating_observer.observer_context = context", "the observer is not bound to the run's context", cpn0.lineno)
     op = repo.func(CPROC, "ContextProcessor.operate_context")
     trys = [n for n in walk_no_nested(op) if isinstance(n, ast.Try) and n.finalbody]
     ok = bool(trys) and any(call_attr(c) == "_set_context_observer" and c.args and isinstance(c.args[0], ast.Constant) and c.args[0].value is None for st in trys[0].finalbody for c in calls_in(st)) and any(call_attr(c) == "_process_logic" for st in trys[0].body for c in calls_in(st))
@@ -305,29 +732,51 @@ def run(repo: Repo, R: Report) -> None:
     R.check(ok, r_seq, ORCH, "SemantivaOrchestrator.execute", "nodes, node_defs = self._instantiate_nodes(resolved_spec, logger)", "the node list is not the instantiated spec in order", ex.lineno)
     nc = next((n for n in ast.walk(lp) if isinstance(n, FuncNode) and any(call_attr(c) == "process" for c in calls_in(n))), None)
     payload_p = next((a.arg for a in ex.args.args if a.arg == "payload"), "payload")
-    DATA = next((t.id for n in walk_no_nested(ex) if isinstance(n, ast.Assign) and ast.unparse(n.value) == f"{payload_p}.data" for t in n.targets if isinstance(t, ast.Name)), "__missing__")
-    CONTEXT = next((t.id for n in walk_no_nested(ex) if isinstance(n, ast.Assign) and ast.unparse(n.value) == f"{payload_p}.context" for t in n.targets if isinstance(t, ast.Name)), "__missing__")
-    ok = nc is not None and any(isinstance(c, ast.Call) and call_attr(c) == "process" and dotted_name(c.func.value) == lp.target.elts[1].id and c.args and ast.unparse(c.args[0]) == f"Payload({DATA}, {CONTEXT})" for c in ast.walk(nc))
+    def run_var(attr: str) -> str:
+        """the local that carries the run's data / context: bound to <payload>.<attr> before the loop (single or tuple assignment)"""
+        for n in walk_no_nested(ex):
+            if isinstance(n, (ast.Assign, ast.AnnAssign)) and not any(a is lp for a in ancestors(n)):
+                for x in ast.walk(n):
+                    if isinstance(x, ast.Name) and isinstance(x.ctx, ast.Store):
+                        v = _assigned_component(n, x.id)
+                        if v is not None and ast.unparse(v) == f"{payload_p}.{attr}":
+                            return x.id
+        return "__missing__"
+
+    DATA, CONTEXT = run_var("data"), run_var("context")
+    ok = False
+    if nc is not None:
+        for c in ast.walk(nc):
+            if isinstance(c, ast.Call) and call_attr(c) == "process" and isinstance(c.func, ast.Attribute) and dotted_name(c.func.value) == lp.target.elts[1].id and (c.args or kwarg(c, "payload") is not None):
+                a0 = c.args[0] if c.args else kwarg(c, "payload")
+                if isinstance(a0, ast.Name):
+                    one = assigned_value(nc, a0.id)
+                    a0 = one[0] if len(one) == 1 else a0
+                pa = _call_args(a0, ("data", "context")) if isinstance(a0, ast.Call) and call_attr(a0) == "Payload" else None
+                ok = ok or bool(pa and dotted_name(pa.get("data")) == DATA and dotted_name(pa.get("context")) == CONTEXT and not any(isinstance(x, ast.Name) and x.id in (DATA, CONTEXT) and isinstance(x.ctx, ast.Store) for x in ast.walk(nc)))
     R.check(ok, r_seq, ORCH, "SemantivaOrchestrator.execute", "node.process(Payload(data, context))", "a node is not run on the current data/context pair", lp.lineno)
     g = CFG(ex, may_raise=lambda p: set())
     sub = next(n for n in g.nodes if n.ast is not None and n.kind == "stmt" and any(call_attr(c) == "_submit_and_wait" for c in calls_in(n.ast)))
     heads = g.nodes_for(lp)
-    upd = [n for n in g.nodes if n.ast is not None and isinstance(n.ast, ast.Assign) and isinstance(n.ast.targets[0], ast.Tuple) and [dotted_name(e) for e in n.ast.targets[0].elts] == [DATA, CONTEXT]]
-    ok = False
-    if upd:
-        rhs = upd[0].ast.value
-        src_names = {x.id for x in ast.walk(rhs) if isinstance(x, ast.Name)}
-        res_var = next((t.id for t in sub.ast.targets if isinstance(t, ast.Name)), None) if isinstance(sub.ast, ast.Assign) else None
-        chain_ok = res_var in src_names or any(res_var in {x.id for x in ast.walk(v) if isinstance(x, ast.Name)} for nm in src_names for v in assigned_value(ex, nm))
+    res_var = next((t.id for t in sub.ast.targets if isinstance(t, ast.Name)), None) if isinstance(sub.ast, ast.Assign) else None
+
+    def from_result(v: ast.AST) -> bool:
+        src_names = {x.id for x in ast.walk(v) if isinstance(x, ast.Name)}
+        return res_var in src_names or any(res_var in {x.id for x in ast.walk(w) if isinstance(x, ast.Name)} for nm in src_names for w in assigned_value(ex, nm))
+
+    ok = res_var is not None
+    for var in (DATA, CONTEXT):
+        # the statement(s) inside the loop that rebind the carried local from this node's result
+        upd = [n.id for n in g.nodes if n.kind == "stmt" and isinstance(n.ast, (ast.Assign, ast.AnnAssign)) and n.ast.value is not None and _defines(n, var) and any(a is lp for a in ancestors(n.ast)) and from_result(_assigned_component(n.ast, var) or n.ast.value)]
         saved = {h: g.succ[h] for h in heads}
         for h in heads:
             g.succ[h] = []
         try:
-            bad = g.must_pass([t for t, lab in g.succ[sub.id] if lab == "n"], heads, lambda n: n.id == upd[0].id)
+            bad = g.must_pass([t for t, lab in g.succ[sub.id] if lab == "n"], heads, lambda n: n.id in upd)
         finally:
             for h, v in saved.items():
                 g.succ[h] = v
-        ok = chain_ok and not bad
+        ok = ok and bool(upd) and not bad
     R.check(ok, r_seq, ORCH, "SemantivaOrchestrator.execute", "data, context = <result of this node> before the next iteration", "the next node does not receive this node's output (data/context not carried forward)", lp.lineno)
     handlers = [h for n in ast.walk(lp) if isinstance(n, ast.Try) and any(call_attr(c) == "_submit_and_wait" for st in n.body for c in calls_in(st)) for h in n.handlers]
     ok = bool(handlers) and all(isinstance(h.body[-1], ast.Raise) and not any(isinstance(x, (ast.Continue, ast.Break, ast.Return)) for x in ast.walk(h)) for h in handlers)
@@ -340,16 +789,43 @@ def run(repo: Repo, R: Report) -> None:
     if len(procs) != 2:
         raise AnalysisError(f"slicer factory: {len(procs)} process overrides found (2 confirmed by reading)")
     for p in procs:
+        data_p = p.args.args[1].arg if len(p.args.args) > 1 else "data"
+        va, kwa = (p.args.vararg.arg if p.args.vararg else None), (p.args.kwarg.arg if p.args.kwarg else None)
         loops = [n for n in walk_no_nested(p) if isinstance(n, ast.For)]
-        ok = len(loops) == 1
-        if ok:
-            it = loops[0].iter
-            base = it.args[0] if isinstance(it, ast.Call) and call_attr(it) == "enumerate" and it.args else it
-            ok = isinstance(base, ast.Name) and base.id == p.args.args[1].arg
-            sc = [c for c in calls_in(loops[0]) if isinstance(c.func, ast.Attribute) and c.func.attr == "process" and isinstance(c.func.value, ast.Call) and call_attr(c.func.value) == "super"]
-            item = loops[0].target.elts[-1].id if isinstance(loops[0].target, ast.Tuple) else getattr(loops[0].target, "id", None)
-            ok = ok and len(sc) == 1 and dotted_name(sc[0].args[0]) == item and any(isinstance(a, ast.Starred) for a in sc[0].args) and any(k.arg is None for k in sc[0].keywords)
-            ok = ok and any(call_attr(c) == "append" for c in calls_in(loops[0])) and not any(isinstance(x, (ast.If, ast.Continue, ast.Break)) for x in ast.walk(loops[0]))
+        comps = [n for n in walk_no_nested(p) if isinstance(n, (ast.ListComp, ast.GeneratorExp, ast.SetComp, ast.DictComp))]
+        rebound = any(isinstance(x, ast.Name) and x.id == data_p and isinstance(x.ctx, (ast.Store, ast.Del)) for x in walk_no_nested(p))
+        ok = len(loops) + len(comps) == 1 and not rebound
+
+        def mapped_call(scope: ast.AST, item: Optional[str]) -> Optional[ast.Call]:
+            sc = [c for c in calls_in(scope) if isinstance(c.func, ast.Attribute) and c.func.attr == "process" and isinstance(c.func.value, ast.Call) and call_attr(c.func.value) == "super"]
+            if len(sc) != 1 or item is None or not sc[0].args or dotted_name(sc[0].args[0]) != item:
+                return None
+            stars = [dotted_name(a.value) for a in sc[0].args[1:] if isinstance(a, ast.Starred)]
+            dstars = [dotted_name(k.value) for k in sc[0].keywords if k.arg is None]
+            if stars != [va] or dstars != [kwa] or len(sc[0].args) != 2 or len(sc[0].keywords) != 1:
+                return None
+            return sc[0]
+
+        def over_input(it: ast.AST, target: ast.AST) -> Optional[str]:
+            """loop variable bound to the elements when the iteration is over the input itself, in order"""
+            if isinstance(it, ast.Call) and call_attr(it) == "enumerate" and len(it.args) == 1 and not it.keywords:
+                return target.elts[1].id if isinstance(it.args[0], ast.Name) and it.args[0].id == data_p and isinstance(target, ast.Tuple) and len(target.elts) == 2 and isinstance(target.elts[1], ast.Name) else None
+            return target.id if isinstance(it, ast.Name) and it.id == data_p and isinstance(target, ast.Name) else None
+
+        if ok and loops:
+            lp_ = loops[0]
+            sc0 = mapped_call(lp_, over_input(lp_.iter, lp_.target))
+            ok = sc0 is not None and not lp_.orelse and not any(isinstance(x, (ast.If, ast.IfExp, ast.Continue, ast.Break, ast.Return, ast.Try, ast.While)) for x in ast.walk(lp_))
+            if ok:
+                # the element result is what gets appended (directly or through one local)
+                holder = {t.id for st in lp_.body if isinstance(st, ast.Assign) and st.value is sc0 for t in st.targets if isinstance(t, ast.Name)}
+                apps = [c for c in calls_in(lp_) if call_attr(c) == "append" and len(c.args) == 1]
+                ok = len(apps) == 1 and (apps[0].args[0] is sc0 or (isinstance(apps[0].args[0], ast.Name) and apps[0].args[0].id in holder))
+        elif ok:
+            cp = comps[0]
+            gen = cp.generators[0]
+            sc0 = mapped_call(cp, over_input(gen.iter, gen.target)) if len(cp.generators) == 1 and not gen.ifs and not gen.is_async else None
+            ok = sc0 is not None and isinstance(cp, (ast.ListComp, ast.GeneratorExp)) and cp.elt is sc0
         R.check(ok, r_sl, SLICE, qualname_of(p), "for item in data: out.append(super().process(item, *args, **kwargs))", "a slicer does not map the wrapped processor over the elements in order with the resolved parameters", p.lineno)
 
     # ------------------------------------------------------------------ D7
@@ -375,8 +851,21 @@ def run(repo: Repo, R: Report) -> None:
             ok = pat is not None and pat.startswith("^" + prefix)
             fc = [c for c in ast.walk(f) if isinstance(c, ast.Call) and call_attr(c) == factory]
             got = []
+            by_signature = False
             if fc:
-                for a in list(fc[-1].args) + [k.value for k in fc[-1].keywords]:
+                # arguments in the order of the factory's own parameters (keyword arguments may be written in any order)
+                arg_list = list(fc[-1].args) + [k.value for k in fc[-1].keywords]
+                try:
+                    tg = repo.resolve_call(rmod, fc[-1])
+                except Exception:
+                    tg = []
+                if len(tg) == 1 and isinstance(tg[0][1], FuncNode):
+                    pnames = tuple(a.arg for a in tg[0][1].args.args)
+                    bound_args = _call_args(fc[-1], pnames)
+                    if bound_args is not None:
+                        arg_list = [bound_args[pn] for pn in pnames if pn in bound_args]
+                        by_signature = True
+                for a in arg_list:
                     for g2 in ast.walk(a):
                         if isinstance(g2, ast.Call) and call_attr(g2) == "group" and g2.args and isinstance(g2.args[0], ast.Constant):
                             got.append(g2.args[0].value)
@@ -389,7 +878,7 @@ def run(repo: Repo, R: Report) -> None:
                                     if isinstance(g2, ast.Call) and call_attr(g2) == "group" and g2.args and isinstance(g2.args[0], ast.Constant):
                                         got.append(g2.args[0].value)
             ok = ok and got == groups
-            if ok and factory == "_context_template_factory":
+            if ok and factory == "_context_template_factory" and not by_signature:
                 kws = [k.arg for k in fc[-1].keywords]
                 ok = kws == ["template", "output_key"]
         R.check(ok, r_sh, RESOLVERS, fn_name or prefix, f"{prefix} -> {factory}({', '.join(groups)})", f"shorthand {prefix} is not resolved by its own pattern with the groups in the documented argument order", getattr(f, "lineno", 0))
@@ -508,51 +997,63 @@ def _rule_forwarding(repo: Repo, R: Report) -> None:
     r = R.rule("C01-D10-accepted-writes-and-deletes-are-carried-out", "between a processor's _notify_context_update/_notify_context_deletion and the context mapping no layer skips the operation: every normally-returning path of each forwarding method performs the forwarding call with the caller's key (validation may only reject by raising), so a declared write happens and deleting an absent key fails at this node", 8)
 
     def forwarded(rel: str, qn: str, is_fwd, what: str, bad: str) -> None:
-        f = repo.func(rel, qn)
+        f0 = repo.func(rel, qn)
+        f = _nf(repo, rel, qn)
         g = CFG(f, may_raise=_no_raise)
-        fwd = {n.id for n in g.nodes if n.ast is not None and n.kind == "stmt" and is_fwd(f, n.ast)}
+        fwd = {n.id for n in g.nodes if n.ast is not None and n.kind == "stmt" and is_fwd(f, g, n.ast, n.id)}
         miss = g.must_pass([g.entry], [g.ret_exit], lambda n: n.id in fwd)
-        R.check(bool(fwd) and not miss, r, rel, qn, what, bad, f.lineno, miss[0][1] if miss else None)
+        R.check(bool(fwd) and not miss, r, rel, qn, what, bad, f0.lineno, miss[0][1] if miss else None)
         # a handler around the forwarding call that does not re-raise turns the prescribed failure into a skip
         for t in [n for n in walk_no_nested(f) if isinstance(n, ast.Try)]:
-            if any(is_fwd(f, st) for b in t.body for st in ast.walk(b) if isinstance(st, ast.stmt)):
+            if any(is_fwd(f, g, st, _node_of(g, st)) for b in t.body for st in ast.walk(b) if isinstance(st, ast.stmt) and not isinstance(st, (ast.If, ast.For, ast.While, ast.With, ast.Try))):
                 for h in t.handlers:
                     if not (h.body and isinstance(h.body[-1], ast.Raise)):
                         R.violation(r, rel, qn, norm(h)[:80], f"the failure of the forwarded operation is caught and not re-raised ({what}): the node completes although the operation failed, later nodes run", h.lineno)
 
-    def key_param(f) -> str:
-        names = [a.arg for a in f.args.args]
-        return names[1] if names and names[0] in ("self", "cls") else names[1] if len(names) > 1 and names[0] == "context" else (names[0] if names else "key")
+    def all_args(c: ast.Call) -> List[ast.AST]:
+        return list(c.args) + [k.value for k in c.keywords if k.arg is not None]
+
+    def first_arg(c: ast.Call, pname: str) -> Optional[ast.AST]:
+        return c.args[0] if c.args and not isinstance(c.args[0], ast.Starred) else kwarg(c, pname)
 
     # validating observer -> base observer
     for meth in ("update", "delete"):
-        def is_super(f, st, meth=meth) -> bool:
-            return any(isinstance(c.func, ast.Attribute) and c.func.attr == meth and isinstance(c.func.value, ast.Call) and call_attr(c.func.value) == "super" and c.args and dotted_name(c.args[0]) == f.args.args[1].arg for c in calls_in(st))
+        def is_super(f, g, st, use, meth=meth) -> bool:
+            return use is not None and any(isinstance(c.func, ast.Attribute) and c.func.attr == meth and isinstance(c.func.value, ast.Call) and call_attr(c.func.value) == "super" and _is_param(g, first_arg(c, "key"), use, f.args.args[1].arg) for c in calls_in(st))
         forwarded(OBS, f"_ValidatingContextObserver.{meth}", is_super, f"every accepted key reaches super().{meth}(key, ...)",
                   f"a declared key is accepted but the {meth} is skipped on some path (extra condition after the membership test): " + ("deleting a key that is not in the context no longer raises KeyError at this node, the node completes and later nodes run" if meth == "delete" else "a declared write is silently dropped"))
     # base observer -> static helpers on the bound context
     for meth, helper in (("update", "update_context"), ("delete", "delete_context")):
-        def is_helper(f, st, helper=helper) -> bool:
-            return any(call_attr(c) == helper and len(c.args) >= 2 and dotted_name(c.args[0]) == "self.observer_context" and dotted_name(c.args[1]) == f.args.args[1].arg for c in calls_in(st))
+        def is_helper(f, g, st, use, helper=helper) -> bool:
+            for c in calls_in(st):
+                if use is None or call_attr(c) != helper:
+                    continue
+                a = _call_args(c, ("context", "key", "value", "index") if helper == "update_context" else ("context", "key", "index"))
+                if a and "context" in a and "key" in a and dotted_name(_val(g, a["context"], use)[0]) == "self.observer_context" and _is_param(g, a["key"], use, f.args.args[1].arg):
+                    return True
+            return False
         forwarded(OBS, f"_ContextObserver.{meth}", is_helper, f"{helper}(self.observer_context, key, ...) on every path", f"the observer does not apply the {meth} to its bound context on some path")
     # static helpers -> the mapping
     for helper, muts in (("update_context", ("set_value", "set_item_value")), ("delete_context", ("delete_value", "delete_item_value"))):
-        def is_mut(f, st, muts=muts) -> bool:
+        def is_mut(f, g, st, use, muts=muts) -> bool:
+            if use is None:
+                return False
             ctx_p, key_p = f.args.args[0].arg, f.args.args[1].arg
             for c in calls_in(st):
-                if isinstance(c.func, ast.Attribute) and c.func.attr in muts and dotted_name(c.func.value) == ctx_p and any(dotted_name(a) == key_p for a in c.args):
+                if isinstance(c.func, ast.Attribute) and c.func.attr in muts and _is_param(g, c.func.value, use, ctx_p) and any(_is_param(g, a, use, key_p) for a in all_args(c)):
                     return True
             tg: List[ast.AST] = []
             if isinstance(st, ast.Assign) and muts[0] == "set_value":
                 tg = list(st.targets)
             if isinstance(st, ast.Delete) and muts[0] == "delete_value":
                 tg = list(st.targets)
-            return any(isinstance(t, ast.Subscript) and dotted_name(t.slice) == key_p and ctx_p in {x.id for x in ast.walk(t.value) if isinstance(x, ast.Name)} for t in tg)
+            # an item store / del on (a part of) the context object, however the part is named
+            return any(isinstance(t, ast.Subscript) and _is_param(g, t.slice, use, key_p) and _rooted_in_param(g, t.value, use, ctx_p) for t in tg)
         forwarded(OBS, f"_ContextObserver.{helper}", is_mut, f"every path mutates `context` under `key` ({'/'.join(muts)} or item store)", f"{helper} returns normally on some path without touching the context")
     # context processor -> its observer
     for meth, obs_meth in (("_notify_context_update", "update"), ("_notify_context_deletion", "delete")):
-        def is_obs(f, st, obs_meth=obs_meth) -> bool:
-            return any(isinstance(c.func, ast.Attribute) and c.func.attr == obs_meth and dotted_name(c.func.value) == "self._context_observer" and c.args and dotted_name(c.args[0]) == f.args.args[1].arg for c in calls_in(st))
+        def is_obs(f, g, st, use, obs_meth=obs_meth) -> bool:
+            return use is not None and any(isinstance(c.func, ast.Attribute) and c.func.attr == obs_meth and dotted_name(_val(g, c.func.value, use)[0]) == "self._context_observer" and _is_param(g, first_arg(c, "key"), use, f.args.args[1].arg) for c in calls_in(st))
         forwarded(CPROC, f"ContextProcessor.{meth}", is_obs, f"self._context_observer.{obs_meth}(key, ...) on every path", f"a context processor's {obs_meth} request is dropped on some path instead of being forwarded to the (validating) observer")
 
 
@@ -602,13 +1103,17 @@ def _rule_shorthand_processors(repo: Repo, R: Report) -> None:
                         blocked.add((n.id, lab))
         for meth, key_idx in expect:
             want_key = fparams[key_idx]
-            sites = {n.id for n in g.nodes if n.ast is not None and n.kind == "stmt" and any(call_attr(c) == meth and dotted_name(c.func) == f"{f.args.args[0].arg}.{meth}" and c.args and dotted_name(c.args[0]) == want_key for c in calls_in(n.ast))}
+            def key_arg(c: ast.Call) -> Optional[ast.AST]:
+                a = _call_args(c, ("key", "value"))
+                return _resolved(a["key"], defs) if a and "key" in a else None
+
+            sites = {n.id for n in g.nodes if n.ast is not None and n.kind == "stmt" and any(call_attr(c) == meth and dotted_name(c.func) == f"{f.args.args[0].arg}.{meth}" and dotted_name(key_arg(c)) == want_key for c in calls_in(n.ast))}
             miss = g.must_pass([g.entry], [g.ret_exit], lambda n: n.id in sites, blocked_edges=blocked)
             tests = sorted({ast.unparse(n.part)[:50] for n in g.nodes if n.kind in ("if", "while") and n.part is not None and not edges_guaranteeing(n.part, absent)})
             R.check(bool(sites) and not miss, r, CFACT, f"{factory}._process_logic", f"self.{meth}({want_key}, ...) whenever the key was resolved",
                     f"the generated processor can finish without `{meth}({want_key})` although the consumed key was resolved" + (f" (guarded by `{tests[0]}`, which is not the presence test: a key that is present and holds None / 0 / False / '' / [] is neither renamed nor deleted, later nodes see the wrong context)" if tests else ""), f.lineno, miss[0][1] if miss else None)
             if meth == "_notify_context_update" and consumed is not None:
-                vals = [c.args[1] for c in calls_in(f) if call_attr(c) == meth and len(c.args) == 2]
+                vals = [a["value"] for a in (_call_args(c, ("key", "value")) for c in calls_in(f) if call_attr(c) == meth) if a and "value" in a]
                 R.check(bool(vals) and all(reads_consumed(v) for v in vals), r, CFACT, f"{factory}._process_logic", f"the value written under {want_key} is the resolved value of {consumed}", "the destination key does not receive the value resolved for the source key", f.lineno)
 
     analyse("_context_renamer_factory", 0, [("_notify_context_update", 1), ("_notify_context_deletion", 0)])
